@@ -123,8 +123,17 @@ class EndpointsEmitter:
         for op in operations:
             method_name = NameSanitizer.sanitize_method_name(op.operation_id)
             if method_name in seen_methods:
-                seen_methods[method_name] += 1
-                new_op_id = f"{op.operation_id}_{seen_methods[method_name]}"
+                # Probe suffixes until the resulting method name is free as well: the suffixed name may
+                # itself be the natural name of another operation (e.g. "get_a_2" next to two "get_a")
+                suffix = seen_methods[method_name]
+                new_op_id = op.operation_id
+                new_method_name = method_name
+                while new_method_name in seen_methods:
+                    suffix += 1
+                    new_op_id = f"{op.operation_id}_{suffix}"
+                    new_method_name = NameSanitizer.sanitize_method_name(new_op_id)
+                seen_methods[method_name] = suffix
+                seen_methods[new_method_name] = 1
                 op.operation_id = new_op_id
             else:
                 seen_methods[method_name] = 1
